@@ -29,6 +29,13 @@ use serde_json::{json, Map, Value};
 
 pub const VERIF_DIR: &str = "/verif";
 
+/// The tree under test: `/repo`, unless `VERIF_REPO` names a scratch copy (background runs on a
+/// snapshot, seeded-change trials); `tools/relocate.sh` rewrites the path dependencies to match.
+#[must_use]
+pub fn repo_dir() -> String {
+    std::env::var("VERIF_REPO").ok().filter(|s| !s.is_empty()).unwrap_or_else(|| "/repo".to_string())
+}
+
 #[derive(Clone, Copy, Debug, PartialEq, Eq)]
 pub enum Tier {
     Quick,
@@ -320,7 +327,7 @@ where
     match guarded(|| oracle(probe)) {
         Ok(r) => r,
         Err(desc) => {
-            if desc.contains("/repo/") {
+            if desc.contains(&format!("{}/", repo_dir())) || desc.contains("/repo/") {
                 Err(Fail::new(format!("panic:{}", panic_key(&desc)), format!("the code under test panicked: {desc}")))
             } else {
                 if harness_problems.len() < 5 {
